@@ -423,8 +423,8 @@ func (x *Exec) evalQuant(kind string, e *ast.CallExpr, st *State, env *Env) Valu
 	bnOf := map[types.Object]string{}
 	for _, o := range objs {
 		ti := x.classify(o.Type())
-		x.fc.n++
-		bn := fmt.Sprintf("%s!%d", o.Name(), x.fc.n)
+		x.binderSeq++
+		bn := fmt.Sprintf("%s!b%d", o.Name(), x.binderSeq)
 		bnOf[o] = bn
 		binders = append(binders, fmt.Sprintf("(%s %s)", bn, ti.sort()))
 		env2.vals[o] = Scalar{bn, ti}
@@ -767,6 +767,9 @@ func (x *Exec) evalClause(c *Clause, sc specCtx, st *State, env *Env) string {
 	}
 	saved := x.pkg
 	x.pkg = pkg
+	if x.specDepth == 0 {
+		x.binderSeq = 0
+	}
 	x.specDepth++
 	v := x.eval(ex, st, env)
 	x.specDepth--
